@@ -786,6 +786,15 @@ func (env *SpecEnv) evalCall(x *SExpr) (Val, error) {
 				return Val{}, err
 			}
 			return env.same(a, b)
+		case "closed":
+			// closed(ch): the channel has been closed (ghost set maintained at close())
+			a, err := env.eval(args[0])
+			if err != nil {
+				return Val{}, err
+			}
+			srt := arrSort(sRef, sBool)
+			e.keySort["X:chclosed"] = srt
+			return Val{T: tBool, S: sel(e.heapGet(env.st, "X:chclosed", srt), a.S)}, nil
 		case "addr":
 			// address of an aggregate-typed field: addr(x.f)
 			if args[0].Op != "sel" {
